@@ -11,7 +11,7 @@ import (
 var profileWeights = map[string]map[string]float64{
 	"locking": {
 		"block": 10, "el.locking": 9, "el.adversarial": 0.3,
-		"p.absent": 0.10, "p.evidence": 0.03, "p.round": 0.04, "p.timejump": 0.08, "p.crash": 0.02, "p.engine": 0.02, "p.reexec": 0.02, "p.timecollide": 0.10,
+		"p.absent": 0.10, "p.evidence": 0.03, "p.round": 0.04, "p.timejump": 0.08, "p.crash": 0.02, "p.engine": 0.02, "p.reexec": 0.02, "p.timecollide": 0.22,
 	},
 	"engine": {
 		"block": 10, "el.locking": 3, "rel.hashes": 1, "rel.deposit": 1, "el.bridge": 1,
@@ -25,7 +25,7 @@ var profileWeights = map[string]map[string]float64{
 	},
 	"handover": {
 		"block": 10, "rel.hashes": 4, "rel.deposit": 5, "el.bridge": 4, "rel.withdraw": 4, "el.locking": 5, "el.adversarial": 0.5,
-		"p.round": 0.15, "p.crash": 0.10, "p.engine": 0.10, "p.finfault": 0.05, "p.timejump": 0.05, "p.byz": 0.10, "p.timecollide": 0.06,
+		"p.round": 0.15, "p.crash": 0.10, "p.engine": 0.10, "p.finfault": 0.05, "p.timejump": 0.05, "p.byz": 0.10, "p.timecollide": 0.18,
 	},
 	"relayer": {
 		"block": 10, "rel.hashes": 3, "rel.pubkey": 1, "rel.consolidation": 1, "rel.group": 4, "rel.forged": 6, "rel.replay": 4, "rel.deposit": 1, "rel.withdraw": 2, "el.bridge": 2, "rel.bundle": 1.5,
@@ -126,7 +126,7 @@ func drawConfig(profile string, tier string, r *Rand) Config {
 	c.BlockMs = int64(1000 + r.Intn(4000))
 	c.UnlockSec = int64(5 + r.Intn(60))
 	c.ExitSec = c.UnlockSec + int64(r.Intn(120))
-	if r.Chance(0.12) {
+	if r.Chance(0.2) {
 		c.ExitSec = c.UnlockSec // legal (Params.Validate): exits and ordinary unlocks of one block share a maturity
 	}
 	c.JailSec = int64(60 + r.Intn(60))
